@@ -101,11 +101,18 @@ def run_sim(binary, args, timeout=600, valgrind=False):
 
 
 def parse_lines(lines):
+    """Returns runs, summaries, begun (last BEGIN), dead (last DEAD line), ended,
+    and the list of runs that began but produced no RUN line (each with the DEAD
+    line printed for it, if any): with one child process per run the batch
+    process survives the death of a run."""
     runs, summaries, begun, dead, ended = [], [], None, None, False
+    lost = []
+    cur, cur_has_run, cur_dead = None, True, None
     for ln in lines:
         if ln.startswith("RUN "):
             try:
                 runs.append(json.loads(ln[4:]))
+                cur_has_run = True
             except ValueError:
                 pass
         elif ln.startswith("SUMMARY "):
@@ -114,41 +121,52 @@ def parse_lines(lines):
             except ValueError:
                 pass
         elif ln.startswith("BEGIN "):
+            if cur is not None and not cur_has_run:
+                lost.append((cur, cur_dead))
             begun = int(ln[6:])
+            cur, cur_has_run, cur_dead = begun, False, None
         elif ln.startswith("DEAD "):
             dead = dict(kv.split("=", 1) for kv in ln[5:].split() if "=" in kv)
+            cur_dead = dead
         elif ln == "END":
             ended = True
-    return runs, summaries, begun, dead, ended
+            if cur is not None and not cur_has_run:
+                lost.append((cur, cur_dead))
+                cur = None
+    return runs, summaries, begun, dead, ended, lost
 
 
 def run_chunk(binary, check, tier, seed, a, b, valgrind=False):
-    """Executes runs a..b-1, restarting after a dead run. Returns dict."""
+    """Executes runs a..b-1. Returns dict."""
     res = {"runs": [], "summaries": [], "deaths": [], "timeouts": []}
     cur = a
     while cur < b:
         rc, out, err = run_sim(binary, ["--check", check, "--tier", tier, "--seed", str(seed),
                                         "--runs", "%d:%d" % (cur, b)], valgrind=valgrind,
-                               timeout=180 if not valgrind else 1800)
-        runs, summaries, begun, dead, ended = parse_lines(out)
+                               timeout=240 if not valgrind else 1800)
+        runs, summaries, begun, dead, ended, lost = parse_lines(out)
         res["runs"] += runs
         res["summaries"] += summaries
+        for i, dl in lost:
+            d = {"i": i, "rc": rc, "stderr": err[-6000:], "how": (dl or {}).get("how", "exit")}
+            if dl:
+                d.update({k: dl[k] for k in ("task", "op", "lib", "kind", "note") if k in dl})
+            res["deaths"].append(d)
         if ended:
             break
-        # the process died inside run `begun`
+        # the batch process itself stopped inside run `begun` (wall-clock limit or death)
         if begun is None:
             res["deaths"].append({"i": cur, "how": "startup", "rc": rc, "stderr": err[-3000:]})
             break
-        if rc == -999 and not dead:
+        if rc == -999:
             # the chunk ran into the driver's wall-clock limit: a slow or hung run,
             # not a crash - counted, replayed for C18 (progress), never a C09 death
             res["timeouts"].append({"i": begun})
-            cur = begun + 1
-            continue
-        d = {"i": begun, "rc": rc, "stderr": err[-6000:], "how": (dead or {}).get("how", "exit")}
-        if dead:
-            d.update({k: dead[k] for k in ("task", "op", "lib", "kind", "note") if k in dead})
-        res["deaths"].append(d)
+        elif not any(i == begun for i, _ in lost):
+            d = {"i": begun, "rc": rc, "stderr": err[-6000:], "how": (dead or {}).get("how", "exit")}
+            if dead:
+                d.update({k: dead[k] for k in ("task", "op", "lib", "kind", "note") if k in dead})
+            res["deaths"].append(d)
         cur = begun + 1
     return res
 
@@ -196,7 +214,7 @@ def replay_plan(binary, planfile_obj, tmpname, valgrind=False, record=False):
     with open(path, "w") as f:
         json.dump(planfile_obj, f)
     rc, out, err = run_sim(binary, ["--replay", path] + (["--record-switches"] if record else []), timeout=300, valgrind=valgrind)
-    runs, _, begun, dead, _ = parse_lines(out)
+    runs, _, begun, dead, _, _ = parse_lines(out)
     classes = set()
     h = None
     result = runs[0] if runs else None
